@@ -46,6 +46,11 @@ CLAIMED = {
             "2-6 real OS threads run generated workloads over 1-3 shared frozen modules (load + call + hash + compare + repr, shared record/enum types, build-freeze-drop of own modules, frozen modules sent to and dropped by another thread); a thread runs only while it holds the baton, which is handed over at hooked scheduling points in /repo (chunk ref-count inc/dec/dealloc, per-thread chunk cache, frozen-heap into_ref/drop/add_reference, lazy string hash, atomic cells of frozen defs, post_freeze, type ids, every evaluator tick) and at send/recv; the schedule PRNG decides who runs, so each run replays from its seed. Every thread's transcript must equal the one it has under the run-to-completion schedule; no panic, chunk life-cycle assertion, deadlock or crash (freed chunks/arenas are poisoned).",
             "Interleavings are explored at the granularity of the hooked sites only: a race on a location without a scheduling point is invisible unless it changes a result at this granularity; there is no happens-before race detector (Miri cannot run the crate, see DESIGN.md §2). First-use races on process-wide lazies are explored only as 'who gets there first' (initialisers run without pre-emption).",
             "DESIGN.md §6 C20"),
+    "C14": ("exploration",
+            "deterministic simulation with the process environment as the schedule: every entropy source (getrandom via LD_PRELOAD shim, address-space layout, thread, evaluation history) drawn from the seed, byte comparison of transcripts across child processes",
+            "Batches of 24 generated 'observable everything' programs (print, repr/str of all value kinds incl. functions/types/bound methods, dir, hash, json, dict/set/struct iteration, failing tails with suggestions and call stacks, plus type-checker errors/interface/approximations and lints of the same file) run in 3 (quick) / 6 (thorough) child processes whose entropy is controlled: getrandom/getentropy stream (std RandomState keys), ASLR disabled and replaced by seeded mmap/malloc/env-padding noise, evaluation on main / 1st / n-th spawned thread, seeded program order and warm-up evaluations. All configurations must produce byte-identical transcripts per program; probes confirm the configurations really differed (std HashSet order, stack address).",
+            "Covers the entropy sources listed; a source not behind one of these seams (e.g. a clock) would not be varied. The harness renders API results in the order returned.",
+            "DESIGN.md §6 C14"),
 }
 
 NOT_APPLICABLE = {
@@ -62,7 +67,6 @@ NOT_APPLICABLE = {
 
 # Properties planned (DESIGN.md) but whose check is not built yet: listed as not claimed *yet*.
 PENDING = {
-    "C14": "claimed in DESIGN.md but its check is not built yet in this commit; not claimed until it is",
     "C18": "claimed in DESIGN.md but its check is not built yet in this commit; not claimed until it is",
     "C19": "claimed in DESIGN.md but its check is not built yet in this commit; not claimed until it is",
 }
@@ -88,7 +92,7 @@ def main():
     baseline = json.load(open("/root/.vp/BASELINE.json"))["cmd"] if os.path.exists("/root/.vp/BASELINE.json") else ""
     m = {
         "version": 1,
-        "setup_cmd": "cd /verif/sim && CARGO_NET_OFFLINE=true cargo build --release --offline",
+        "setup_cmd": "cd /verif/sim && CARGO_NET_OFFLINE=true cargo build --release --offline && cc -shared -fPIC -O2 -o /verif/target/entropy_shim.so /verif/sim/shim/entropy_shim.c",
         "hooks": {
             "guard": "cargo feature `verif_hooks` of crate `starlark` (off by default; all hook code is #[cfg(feature = \"verif_hooks\")])",
             "enable": "the simulator crate /verif/sim depends on /repo/starlark by path with features = [\"verif_hooks\"]; every ./check rebuilds it from /repo's working tree",
